@@ -224,4 +224,11 @@ CHECKS['C20'] = dict(_SCHED, title='Concurrency helpers keep their contract unde
     bound={'quick': 'preemption bound 2 (singleton scenarios, observer) / 3 (managed)', 'thorough': 'preemption bound 4/3/3 (singleton) and 5/3 (managed)'},
     assumptions=['sequentially consistent interleaving semantics; acquire/release atomics treated as SC (one atomic flag: per-location coherence decides)', 'the ManagedThread object lives in static storage so that its flag is a candidate scheduling point'])
 
+CHECKS['C09'] = dict(_SCHED, title='Independent handlers can be used concurrently', harness=['harness/c09_concurrent.cpp'], lib=True, deadline={'quick': 280, 'thorough': 2400},
+    level_text='5 handler bodies (list destinations with different separators, checks, argument and handler constraints, key-value destination with usage output, all standard arguments via flags, a rejected line), each first run alone in a fresh process; 10 pairs and two triples explored over every schedule with <= 2-3 (quick) / 2-4 (thorough) preemptions on the real code: per schedule every thread must observe its solo outcome and no data race may occur on static storage or heap of the executable',
+    level_note='scheduling points = synchronisation operations (mutex, function-local static guards, thread create/join) + accesses to static-storage locations shared by two threads with a writer (learned per scenario, reported); code inside libstdc++/boost/libc shared objects is not instrumented (trusted); sequentially consistent scheduler',
+    rule='scenario (set of bodies) x schedule (DFS over choices at scheduling points, preemption bound); states = executions (complete schedules), transitions = scheduling points passed, traces = executions of the real code; non-trivial = executions with a context switch at a shared location',
+    bound={'quick': 'pairs of list/constraint bodies: 3 preemptions; pairs with usage/standard arguments and the triple H1+H2+H5: 2; triple H3+H4+H1: 1', 'thorough': '4 / 3 / 2 preemptions'},
+    assumptions=['the documented promise is about handlers that share no destination variables: every thread owns its handler, streams and variables'])
+
 NOT_APPLICABLE = [e for e in NOT_APPLICABLE if e['property_id'] not in CHECKS]
